@@ -89,6 +89,24 @@ def run(C, R):
                                '%s:%s' % (m['file'], m['line']))
                 if m.get('name') == 'check_expirations':
                     peeks = [(i, e) for i, e in enumerate(path.events) if e['k'] == 'qop' and e['op'] == 'peek_min']
+                    # the scan ends only on an empty heap or on a minimum that is not due: "all due timers"
+                    if peeks:
+                        li, le = peeks[-1]
+                        if le['node'] is not None:
+                            expiry = ('init', le['node'] + ('data', 'expiry'))
+                            d = [due_fact(E, path, nw['ret'], expiry) for nw in nows]
+                            if d and d[0] == 1:
+                                R.fail('C15.R2', [m['path'], 'scan-stops-after-a-due-timer'],
+                                       'check_expirations returns right after handling a due timer without looking '
+                                       'at the new heap minimum: other due timers (e.g. with an equal deadline) are '
+                                       'missed [%s]' % pc, where(F, le), {'trace': trace_summary(path)})
+                            elif d and d[0] == 0:
+                                R.ok('C15.R2', '%s|scan ends at a minimum that is not due|%s' % (m['path'], pc))
+                        else:
+                            R.ok('C15.R2', '%s|scan ends on an empty heap|%s' % (m['path'], pc))
+                    else:
+                        R.fail('C15.R2', [m['path'], 'no-scan'], 'check_expirations does not look at the heap minimum',
+                               '%s:%s' % (m['file'], m['line']))
                     for n, (i, e) in enumerate(peeks):
                         if e['node'] is None:
                             continue
